@@ -432,7 +432,7 @@ def conventions():
 
 def legs(tier):
     out = []
-    Ns = (1, 2, 3) if tier == 'quick' else (1, 2, 3, 4)
+    Ns = (1, 2, 3, 4)
     items = [[N, name, qs] for N in Ns for name, qs in gates_of(N)]
     out.append(Leg('paulis', fn_paulis, items, chunk=2, src_states=sum(4 * 4 ** N for N in Ns),
                    bound='N in %s: H,S,X,Y,Z and C(0..23) on every wire, CNOT on every ordered pair of distinct wires (%d gate placements) x the whole Pauli group with 4 phases' % (
